@@ -670,6 +670,7 @@ def _engine_db() -> dict:
     if set(digests) != {'get_ent', '_parse_block', 'get_fgd'}:
         raise TranslateError('EngineDB.get_ent/_parse_block/get_fgd not found')
     lazy = _lazy_db(edb)
+    bb = _build_blocks(tree)
     layouts = _record_layouts(tree)
     kvw = layouts['kv_serialise']
     special = {}
@@ -679,7 +680,7 @@ def _engine_db() -> dict:
             special['choices' if kvw[i + 1] == 'raise' else 'list'] = vt_alias.get(m.group(1), m.group(1))
     if set(special) != {'list', 'choices'}:
         raise TranslateError(f'kv_serialise: the SPAWNFLAGS / CHOICES branches were not recognised: {kvw}')
-    return dict(lazy=lazy, layouts=layouts, special_types=special, vt_members=vt_members, vt_order=vt_order, et_members=et_members, ft_members=ft_members, ft_order=ft_order,
+    return dict(lazy=lazy, build_blocks=bb, layouts=layouts, special_types=special, vt_members=vt_members, vt_order=vt_order, et_members=et_members, ft_members=ft_members, ft_order=ft_order,
                 ef_members=ef_members, structs=structs, consts=consts, bits=bits, digests=digests)
 
 
@@ -1742,6 +1743,113 @@ def _type_text(tree: ast.Module) -> dict:
 
 
 
+# ------------------------------------------------------------------------------------------ build_blocks / serialise
+_CMP_FN = {'Lt': 'N.ltb', 'LtE': 'N.leb', 'Gt': '(fun a b => N.ltb b a)', 'GtE': '(fun a b => N.leb b a)'}
+
+
+def _build_blocks(tree: ast.Module) -> dict:
+    """The decisive shape of _engine_db.build_blocks (SM/FgdBlocks.v): the three size comparisons, and where blocks without entities
+    are dropped from the list that is returned - before the entities that no pair placed are distributed (then the first overflow
+    block is filled after it left the list: they are never written) and/or afterwards.  serialise(): both loops (class-name table,
+    block data) run over the list build_blocks returned and the data loop writes every entity of the block."""
+    fn = _normalise(_fn(tree, 'build_blocks'), tree)
+    body = [st for st in _body(fn) if not isinstance(st, ast.ClassDef)]
+    if len([st for st in _body(fn) if isinstance(st, ast.ClassDef)]) != 1:
+        raise TranslateError('build_blocks: the local block class was not found')
+    loops = [i for i, st in enumerate(body) if isinstance(st, ast.For)]
+    if len(loops) < 2:
+        raise TranslateError('build_blocks: pair loop and leftover loop not found')
+    i_pair, i_left = loops[0], loops[1]
+    pair, left = body[i_pair], body[i_left]
+    # the list that is returned, the overflow block, the set of unplaced entities
+    lst = None
+    for st in body[:i_pair]:
+        if isinstance(st, (ast.Assign, ast.AnnAssign)) and isinstance(st.value, ast.List) and len(st.value.elts) == 1 and isinstance(st.value.elts[0], ast.Name):
+            tgt = st.targets[0] if isinstance(st, ast.Assign) else st.target
+            if isinstance(tgt, ast.Name):
+                lst, ovf = tgt.id, st.value.elts[0].id
+    if lst is None:
+        raise TranslateError('build_blocks: `all_blocks = [overflow_block]` not found')
+    # pair loop: operators by role, and a census of what it does with the list
+    cmps = [n for n in ast.walk(pair) if isinstance(n, ast.Compare) and len(n.ops) == 1 and type(n.ops[0]).__name__ in _CMP_FN
+            and any(isinstance(x, ast.Name) and x.id == 'MAX_BLOCK_SIZE' or isinstance(x, ast.Constant) and isinstance(x.value, int)
+                    for x in ast.walk(n.comparators[0]))]
+    merge_ops = [type(n.ops[0]).__name__ for n in cmps if sum(1 for x in ast.walk(n.left) if isinstance(x, ast.Attribute) and x.attr == 'bytesize') == 2]
+    add_ops = [type(n.ops[0]).__name__ for n in cmps if sum(1 for x in ast.walk(n.left) if isinstance(x, ast.Attribute) and x.attr == 'bytesize') == 1]
+    if len(merge_ops) != 1 or len(add_ops) != 2 or len(set(add_ops)) != 1 or len(cmps) != 3:
+        raise TranslateError(f'build_blocks: size tests of the pair loop not recognised (merge {merge_ops}, add {add_ops})')
+    calls = [n for n in ast.walk(pair) if isinstance(n, ast.Call) and isinstance(n.func, ast.Attribute)]
+    census = {'add_ent': sum(1 for c in calls if c.func.attr == 'add_ent'),
+              'remove': sum(1 for c in calls if c.func.attr == 'remove' and _is(c.func.value, lst)),
+              'append': sum(1 for c in calls if c.func.attr == 'append' and _is(c.func.value, lst))}
+    if census != {'add_ent': 5, 'remove': 1, 'append': 1} or _stores(pair) & {lst, ovf}:
+        raise TranslateError(f'build_blocks: pair loop not recognised (calls {census})')
+    # between the loops / after the leftover loop: where are blocks dropped from the list?
+
+    def drops(stmts: list[ast.stmt]) -> bool:
+        found = False
+        for st in stmts:
+            touches = any(isinstance(n, ast.Name) and n.id == lst for n in ast.walk(st))
+            if not touches:
+                continue
+            if _is(st, f'if not {ovf}.ents:\n    {lst}.remove({ovf})'):
+                found = True
+            elif (isinstance(st, ast.Assign) and len(st.targets) == 1 and isinstance(st.targets[0], ast.Name) and st.targets[0].id == lst and isinstance(st.value, ast.ListComp)
+                  and len(st.value.generators) == 1 and _is(st.value.generators[0].iter, lst) and isinstance(st.value.generators[0].target, ast.Name)
+                  and _is(st.value.elt, st.value.generators[0].target.id) and len(st.value.generators[0].ifs) == 1
+                  and _is(st.value.generators[0].ifs[0], f'{st.value.generators[0].target.id}.ents')):
+                found = True
+            elif isinstance(st, ast.Expr) and isinstance(st.value, ast.Call) and _is(st.value.func, f'{lst}.sort'):
+                continue
+            elif isinstance(st, (ast.For, ast.Return)) and not (_stores(st) & {lst}) and not any(
+                    isinstance(n, ast.Call) and isinstance(n.func, ast.Attribute) and _is(n.func.value, lst) for n in ast.walk(st)):
+                continue       # reads only (statistics, the returned list)
+            elif isinstance(st, ast.Expr) and isinstance(st.value, ast.Call) and _is(st.value.func, 'print'):
+                continue
+            else:
+                raise TranslateError(f'build_blocks: statement about {lst} not recognised at line {st.lineno}: {ast.unparse(st)[:70]}')
+        return found
+    before = drops(body[i_pair + 1:i_left])
+    after = drops(body[i_left + 1:])
+    # leftover loop
+    lb = left.body
+    ok = (_is(left.iter, 'list(todo)') or _is(left.iter, 'todo') or _is(left.iter, 'sorted(todo)') or _is(left.iter, 'tuple(todo)')) and isinstance(left.target, ast.Name)
+    e = left.target.id if ok else ''
+    ok = ok and len(lb) == 2 and _is(lb[0], f'{ovf}.add_ent({e})') and isinstance(lb[1], ast.If) and not lb[1].orelse
+    if ok:
+        t = lb[1].test
+        ok = (isinstance(t, ast.Compare) and len(t.ops) == 1 and type(t.ops[0]).__name__ in _CMP_FN and _is(t.left, f'{ovf}.bytesize')
+              and (_is(t.comparators[0], 'MAX_BLOCK_SIZE') or isinstance(t.comparators[0], ast.Constant)))
+        stm = sorted(ast.unparse(x) for x in lb[1].body)
+        ok = ok and len(stm) == 2 and stm[0] == f'{lst}.append({ovf})' and stm[1].startswith(f'{ovf} = ') and stm[1].endswith('()')
+    if not ok:
+        raise TranslateError('build_blocks: leftover loop not recognised')
+    ovf_op = type(lb[1].test.ops[0]).__name__   # type: ignore[attr-defined]
+    # serialise: header loop and data loop over the returned list; the data loop writes every entity
+    ser = _fn(tree, 'serialise')
+    res = [st.targets[0].id for st in _body(ser) if isinstance(st, ast.Assign) and len(st.targets) == 1 and isinstance(st.targets[0], ast.Name)
+           and isinstance(st.value, ast.Call) and _is(st.value.func, 'build_blocks')]
+    if len(res) != 1:
+        raise TranslateError('serialise: `blocks = build_blocks(...)` not found')
+    loops = [st for st in _body(ser) if isinstance(st, ast.For) and _is(st.iter, res[0])]
+    writes_all = False
+    names_all = False
+    for lp in loops:
+        if not (isinstance(lp.target, ast.Tuple) and len(lp.target.elts) == 2 and isinstance(lp.target.elts[0], ast.Name)):
+            continue
+        be = lp.target.elts[0].id
+        for n in ast.walk(lp):
+            if isinstance(n, ast.For) and _is(n.iter, be) and isinstance(n.target, ast.Name) and any(
+                    isinstance(c, ast.Call) and _is(c.func, 'ent_serialise') and c.args and _is(c.args[0], n.target.id) for c in ast.walk(n)):
+                writes_all = True
+            if isinstance(n, ast.GeneratorExp) and len(n.generators) == 1 and _is(n.generators[0].iter, be) and not n.generators[0].ifs and isinstance(
+                    n.generators[0].target, ast.Name) and _is(n.elt, f'{n.generators[0].target.id}.classname'):
+                names_all = True
+    return {'merge_op': merge_ops[0], 'add_op': add_ops[0], 'ovf_op': ovf_op, 'drop_before': before, 'drop_after': after,
+            'serialise_loops': len(loops), 'serialise_writes_every_entity': writes_all and names_all and len(loops) == 2}
+
+
+
 # ------------------------------------------------------------------------------------------ emit
 def _nlist(xs) -> str:
     return '[' + '; '.join(str(int(x)) for x in xs) + ']%N'
@@ -1777,7 +1885,7 @@ def translate() -> tuple[str, dict]:
     ef = dict(db['ef_members'])
     lines = [
         '(* GENERATED by translate/c16_fgd.py from srctools/fgd.py, _engine_db.py, tokenizer.py, const.py. Do not edit. *)',
-        'From Coq Require Import List NArith String.', 'From SV Require Import Fmt.LongString Fmt.FgdLine Fmt.FgdTypeText SM.LazyDbMulti.',
+        'From Coq Require Import List NArith String.', 'From SV Require Import Fmt.LongString Fmt.FgdLine Fmt.FgdTypeText SM.LazyDbMulti SM.FgdBlocks.',
         'Import ListNotations.', 'Open Scope string_scope.',
         'Inductive cmp_op := OpGt | OpGe | OpLt | OpLe | OpEq | OpNe.',
         '(* tokenizer.ESCAPES as (symbol, character); characters escape_text() never escapes *)',
@@ -1828,6 +1936,12 @@ def translate() -> tuple[str, dict]:
         '(* the database list; EntityDef.engine_def returns the first database (in that order) that knows the class *)',
         f'Definition engine_dbase_merge : merge_mode := {"FirstWins" if md["effective_first"] else "LastWins"}.',
         f'Definition engine_def_returns_first_hit : bool := {_b(md["first_hit"])}.',
+        '(* _engine_db.build_blocks: size tests by role, and where blocks without entities leave the list (SM/FgdBlocks.v); serialise *)',
+        'Definition gen_bcfg : bcfg := {| merge_fits := %s; add_fits := %s; ovf_full := %s; drop_empty_before_leftovers := %s; '
+        'drop_empty_after_leftovers := %s |}.' % (_CMP_FN[db['build_blocks']['merge_op']], _CMP_FN[db['build_blocks']['add_op']],
+                                                   _CMP_FN[db['build_blocks']['ovf_op']], _b(db['build_blocks']['drop_before']), _b(db['build_blocks']['drop_after'])),
+        f'Definition max_block_size : N := {db["consts"]["MAX_BLOCK_SIZE"]}%N.',
+        f'Definition serialise_writes_every_entity : bool := {_b(db["build_blocks"]["serialise_writes_every_entity"])}.',
         '(* every bit operation with an integer literal in the (un)serialisers: (function, operator, literal) *)',
         'Definition bit_ops : list (string * string * N) := [' + '; '.join(
             f'("{fn}", "{op}", {lit}%N)' for fn, ops in db['bits'].items() for op, lit, _ in ops) + '].',
